@@ -6,6 +6,13 @@ from pvlib import Check
 from checks import evalfam, evalcheck
 
 
+def eval_len(recv):
+    """the elements of a receiver literal written above (a Python-readable list after small substitutions)"""
+    import re
+    t = re.sub(r"%?\{[^{}]*\}", "0", recv).replace("'", "")
+    return eval(t)
+
+
 def run():
     ck = Check("C04")
     thorough = ck.tier == "thorough"
@@ -30,6 +37,37 @@ def run():
                 ck.reject(f"C04:forms-disagree:{key.split(':')[0]}:{key.split(':')[1]}:{base_form}-vs-{form}",
                           f"{base['src'].splitlines()[-2]!r} gives {base['observed']} but {r['src'].splitlines()[-2]!r} gives {r['observed']}",
                           {"a": base["src"], "b": r["src"], "observed_a": base["observed"], "observed_b": r["observed"]})
+    # the same relation for BUILT-IN properties with arguments and keywords (the machine's methods are user-written): a list chain in the
+    # property form gives what the literal form gives and what the calls give element by element; a reduce chain what the nested calls give
+    from pvlib import run_cases
+    breqs = []
+    RECVS = {"objs": "[{x: 1, y: 2}, {tag: 7}, {x: 3}]", "strs": '["ab", "c", ""]', "arrs": "[[3, 1], [2], []]", "ints": "[5, 6, 255]", "maps": "[%{1: 2}, %{'a: 3, [1]: 4}]"}
+    PROPS = {"objs": ["patch(v: 0)", "patch(v: 0, w: [1])", "keys(private?: true)", "bear({q: 1})", "digest([['k, 1]])", "del('x)", "items"],
+             "strs": ["I(base: 16)", "uc", 'sub("b", "B")', "at([0])", "len", 'split("")'], "arrs": ['join("-")', "at([0])", "push(9)", "rev", "has?(2)", "assign(0, 7)"],
+             "ints": ["S(base: 2)", "S", "clip(0, 6)", "between?(5, 6)", "at([0])"], "maps": ["keys", "items", "len", "at([1])", "digest([[2, 3]])"]}
+    for kind, recv in RECVS.items():
+        for pr in PROPS[kind]:
+            for ctx in ("@", "=@", "~@", "&@"):
+                tag = f"{kind}:{pr}:{ctx}"
+                breqs.append((tag, "prop", f"xs := {recv}\nsay(nil.try.{{|u| xs{ctx}{pr}}}.A)\nsay(xs)"))
+                breqs.append((tag, "literal", f"xs := {recv}\nsay(nil.try.{{|u| xs{ctx}{{|x| x.{pr}}}}}.A)\nsay(xs)"))
+            breqs.append((f"{kind}:{pr}:each", "prop", f"xs := {recv}\nsay(nil.try.{{|u| xs=@{pr}}}.A)\nsay(xs)"))
+            breqs.append((f"{kind}:{pr}:each", "elementwise", f"xs := {recv}\nsay(nil.try.{{|u| [{', '.join(f'xs[{i}].{pr}' for i in range(recv.count('], [') + recv.count('}, {') + recv.count(', ') + 1 if False else len(eval_len(recv)))) }]}}.A)\nsay(xs)"))
+    bout = run_cases([{"id": f"b{k}", "src": src} for k, (_, _, src) in enumerate(breqs)], label="C04 built-in properties in list chains")
+    bgroups = {}
+    for k, (tag, form, src) in enumerate(breqs):
+        bgroups.setdefault(tag, []).append((form, src, bout[f"b{k}"]))
+    for tag, rows in bgroups.items():
+        if any(str(o["end"]).startswith(("discarded:", "fuel:")) for _, _, o in rows):
+            continue
+        (f0, s0, o0) = rows[0]
+        for (f1, s1, o1) in rows[1:]:
+            compared += 1
+            if (o0["events"], o0["end"]) != (o1["events"], o1["end"]):
+                ck.reject(f"C04:builtin-forms-disagree:{tag.split(':')[0]}:{tag.split(':')[1].split('(')[0]}:{tag.split(':')[-1]}:{f0}-vs-{f1}",
+                          f"{s0.splitlines()[1]!r} gives {o0['events']} but {s1.splitlines()[1]!r} gives {o1['events']}",
+                          {"a": s0, "b": s1, "observed_a": o0["events"], "observed_b": o1["events"]})
+    ck.cov["builtin_property_programs"] = len(breqs)
     ck.cov["evaluations"] = len(fam)
     ck.cov["distinct_nontrivial"] = st["ok"]
     ck.cov["form_comparisons"] = compared
@@ -37,7 +75,7 @@ def run():
     ck.cov["exhaustive"] = True
     ck.cov["rule"] = ("10 chain contexts (. &. ~. @ &@ ~@ =@ $ &$ ~$) x 3 call forms (property, literal {|x| x.prop(args)} / {|acc, x| acc.prop(x, args)}, variable) x "
                       "receivers: arrays of 0..2 (thorough 3) elements each in {value, nil result, raise, nil element}, ints, ranges, objects; chain argument none / [] / [9] / "
-                      "accumulator / {}; method with and without an extra argument; callee raising StopIterErr; non-trivial = runs accepted by PanEval")
+                      "accumulator / {}; method with and without an extra argument; callee raising StopIterErr; 29 built-in properties with arguments / keywords over lists of objects, strs, arrays, ints and maps in the four list contexts: property form = literal form = element by element; non-trivial = runs accepted by PanEval")
     ck.assumptions = ["string receivers and iterator-literal receivers are outside PanEval's element model (iterators: C14)"]
     if st["ok"] + st["mismatch"] < len(fam) * 0.9:
         raise pvlib.Broken(f"too many programs unsupported/discarded: {st}")
